@@ -304,6 +304,9 @@ var stmtPats = []pat{
 		}
 		return "", false
 	}},
+	{regexp.MustCompile(`^ctx\.MarkContainer\((\w+)\)$`), func(m []string, tr *translator) (string, bool) {
+		return "PMarkContainer", len(tr.params) >= 2 && m[1] == tr.params[1] && tr.method == "OnChildContainerEnded"
+	}},
 	{regexp.MustCompile(`^switch arrayType \{ (case [^:]+: ctx\.MarkObject\(dataType\) )*default: ctx\.MarkObject\(dataType\) \}$`), func(_ []string, tr *translator) (string, bool) {
 		return "PMarkObject DtOfArrayType", tr.arrayDT
 	}},
